@@ -271,41 +271,13 @@ pub fn run(ctx: &Ctx) {
     let docs = count_upto(k, max_tokens);
     let seed = ctx.seed;
     let toks1 = tokens(1);
-    ctx.layer(
-        "histories",
-        0,
-        docs * 16,
-        json!({"tokens": TOKENS.iter().map(|t| lossy(t)).collect::<Vec<_>>(), "max_tokens": max_tokens, "max_flips": max_flips, "initial_settings": 16}),
-        |i, acc| {
-            let mut doc = Vec::new();
-            decode_upto(k, max_tokens, i / 16, &mut doc);
-            let init = (i % 16) as u8;
-            let mut cfg = 0u8;
-            for (b, sw) in SWITCHES.iter().enumerate() {
-                if init & (1 << b) != 0 {
-                    cfg |= sw;
-                }
-            }
-            let bytes: Vec<u8> = doc.iter().flat_map(|&d| toks1[d as usize].iter().copied()).collect();
-            let mut reader = Reader::from_reader(&bytes[..]);
-            apply_cfg(reader.config_mut(), cfg);
-            acc.evaluations += 1;
-            let mut w = Walk { toks: &toks1, doc: &doc, bytes: &bytes, max_flips, acc, order: (0, i), init_cfg: cfg, history: Vec::new(), violated: false };
-            let model = Model { stack: TagStack::default(), tok: 0, pending_end: None, pos: 0 };
-            w.go(&reader, &model, cfg, 0, false, false);
-            acc.sample(seed, i, || json!({"document": lossy(&bytes), "initial_cfg": cfg_show(cfg)}));
-        },
-    );
-
     // size thresholds of the name stack (a shared byte buffer indexed by offsets): the same walk with
     // the three names stretched to every length of the list
     let lens: Vec<usize> = t.pick(
         vec![2, 8, 9, 16, 17, 32, 64, 128, 255, 256, 257, 1024, 65535, 65536, 65537],
         crate::inputs::size_list(130, 17).into_iter().filter(|&n| n >= 2).map(|n| n as usize).collect(),
     );
-    if !full {
-        return; // the name stack is the same code in both builds
-    }
+    if full {
     let long_tokens: u32 = t.pick(3, 4);
     let long_flips: usize = 1;
     let tables: Vec<Vec<Vec<u8>>> = lens.iter().map(|&l| tokens(l)).collect();
@@ -335,6 +307,33 @@ pub fn run(ctx: &Ctx) {
             let mut w = Walk { toks, doc: &doc, bytes: &bytes, max_flips: long_flips, acc, order: (1, i), init_cfg: cfg, history: Vec::new(), violated: false };
             let model = Model { stack: TagStack::default(), tok: 0, pending_end: None, pos: 0 };
             w.go(&reader, &model, cfg, 0, false, false);
+        },
+    );
+    }
+    // the big layer last
+    ctx.layer(
+        "histories",
+        0,
+        docs * 16,
+        json!({"tokens": TOKENS.iter().map(|t| lossy(t)).collect::<Vec<_>>(), "max_tokens": max_tokens, "max_flips": max_flips, "initial_settings": 16}),
+        |i, acc| {
+            let mut doc = Vec::new();
+            decode_upto(k, max_tokens, i / 16, &mut doc);
+            let init = (i % 16) as u8;
+            let mut cfg = 0u8;
+            for (b, sw) in SWITCHES.iter().enumerate() {
+                if init & (1 << b) != 0 {
+                    cfg |= sw;
+                }
+            }
+            let bytes: Vec<u8> = doc.iter().flat_map(|&d| toks1[d as usize].iter().copied()).collect();
+            let mut reader = Reader::from_reader(&bytes[..]);
+            apply_cfg(reader.config_mut(), cfg);
+            acc.evaluations += 1;
+            let mut w = Walk { toks: &toks1, doc: &doc, bytes: &bytes, max_flips, acc, order: (0, i), init_cfg: cfg, history: Vec::new(), violated: false };
+            let model = Model { stack: TagStack::default(), tok: 0, pending_end: None, pos: 0 };
+            w.go(&reader, &model, cfg, 0, false, false);
+            acc.sample(seed, i, || json!({"document": lossy(&bytes), "initial_cfg": cfg_show(cfg)}));
         },
     );
 }
